@@ -4,6 +4,6 @@ go 1.18
 
 require github.com/acekingke/yaccgo v0.0.0
 
-require github.com/awalterschulze/gographviz v2.0.3+incompatible // indirect
+require github.com/awalterschulze/gographviz v2.0.3+incompatible
 
 replace github.com/acekingke/yaccgo => /repo
